@@ -178,6 +178,46 @@ static void instances(int n, int maxm, bool withEq, int scaleVariant, bool perms
     }
 }
 
+// ---- part A2: instance, solve, then move desired positions and re-solve on the SAME solver ------------------
+// (the incremental use made by gradient projection and nudging: constraints fixed, desired positions change between solves)
+template <class NS> static void resolves(int n, int maxm, const vector<double> &gaps, int wmode) {
+    vector<double> dvals = {0, 1, 3}, newd = {0, 12};
+    vector<SepC> alphabet; for (int l = 0; l < n; l++) for (int r = 0; r < n; r++) if (l != r) for (double g : gaps) alphabet.push_back({l, r, g, false});
+    int A = alphabet.size();
+    ctx.phase(mcx::fmt("re-solves %s n=%d m<=%d gaps=%zu weights#%d: solve, then each desired[v]:=0|12 in turn, re-solve", NS::name(), n, maxm, gaps.size(), wmode));
+    for (int m = 1; m <= maxm && !ctx.stopped(); m++) {
+        vector<int> idx(m, 0);
+        do {
+            Inst I; I.n = n; I.sc.assign(n, 1.0); for (int i : idx) I.cs.push_back(alphabet[i]);
+            if (!oracle::feasible_bf(n, I.cs)) continue;
+            vector<int> dsel(n, 0);
+            do {
+                for (int wc = 0; wc < (wmode == 0 ? 1 : n + 1); wc++) {
+                    if (!ctx.next()) continue;
+                    I.d.assign(n, 0); I.w.assign(n, 1); for (int i = 0; i < n; i++) I.d[i] = dvals[dsel[i]]; if (wc > 0) I.w[wc - 1] = (wmode == 1 ? 4 : 100);
+                    ctx.count("states"); ctx.sample(inst_str(I), 1);
+                    typename NS::Vs vs; typename NS::Cs vc; for (int i = 0; i < n; i++) vs.push_back(new typename NS::V(i, I.d[i], I.w[i], 1.0)); for (auto &c : I.cs) vc.push_back(new typename NS::C(vs[c.l], vs[c.r], c.gap, false));
+                    string hist = string(NS::name()) + "::IncSolver " + inst_str(I) + " ops: solve"; bool nontriv = false;
+                    try {
+                        typename NS::Inc s(vs, vc); vector<double> d = I.d;
+                        for (int step = 0; step <= 2 * n; step++) {
+                            if (step > 0) { int v = (step - 1) / 2; double nv = newd[(step - 1) % 2]; d[v] = nv; vs[v]->desiredPosition = nv; hist += mcx::fmt(" desired[%d]:=%g solve", v, nv); }
+                            s.solve(); ctx.count("transitions");
+                            bool any = false; for (auto c : vc) any |= c->unsatisfiable;
+                            vector<double> x; for (auto v : vs) x.push_back(v->finalPosition);
+                            if (P1) { for (size_t q = 0; q < vc.size(); q++) if (!vc[q]->unsatisfiable) { double sl = x[I.cs[q].r] - x[I.cs[q].l] - I.cs[q].gap; if (sl < -1e-6) { ctx.violation("unsatisfied_constraint", {}, hist, cstr(I.cs[q]) + " slack=" + mcx::g(sl)); break; } } if (any) ctx.violation("flag_on_feasible", {}, hist); }
+                            else if (!any) { vector<double> best; int nact = 0; if (oracle::qp_active_set(n, d, I.w, I.sc, I.cs, best, &nact)) { if (nact > 0) nontriv = true; double err = 0; for (int i = 0; i < n; i++) err = max(err, fabs(best[i] - x[i])); ctx.count("optimality_checks"); if (!(err <= 1e-5 * 12)) { ctx.violation("not_optimal", {}, hist, "x=" + xs(x) + " optimum=" + xs(best)); break; } } }
+                        }
+                    } catch (vpsc::CriticalFailure &f) { ctx.library_abort(f.what(), hist); }
+                    if (nontriv || P1) ctx.count("nontrivial");
+                    for (auto c : vc) delete c; for (auto v : vs) delete v;
+                    ctx.done_case();
+                }
+            } while (mcx::odo_next(dsel, (int)dvals.size()));
+        } while (!ctx.stopped() && mcx::multiset_next(idx, A));
+    }
+}
+
 // ---- part B: histories on one live IncSolver --------------------------------------
 struct Op { int kind; int a; double v; SepC c; };   // 0 add c, 1 desired[a]:=v, 2 solve, 3 satisfy
 static string op_str(const Op &p) {
@@ -262,6 +302,7 @@ int main(int argc, char **argv) {
     instances(3, 3, true, 1, false);
     instances(2, 3, true, 2, false);
     if (!P1) { instances(2, 3, true, 0, true); instances(3, 2, true, 0, true); instances(3, 2, false, 1, true); }
+    resolves<NSvpsc>(3, 3, {-1, 0, 2}, 1); resolves<NSvpsc>(4, 4, {1}, 2); resolves<NSavoid>(3, 3, {0, 2}, 2);
     histories<NSvpsc>(3, 3, 0, false);
     histories<NSvpsc>(3, 4, 0, false);
     histories<NSvpsc>(3, 4, 1, false);
@@ -269,6 +310,7 @@ int main(int argc, char **argv) {
     histories<NSvpsc>(3, 5, 1, false);
     histories<NSvpsc>(3, 4, 2, true);
     if (T) {
+        resolves<NSvpsc>(4, 4, {0, 2}, 2); resolves<NSavoid>(4, 4, {1}, 2); resolves<NSvpsc>(4, 5, {1}, 0);
         instances(3, 4, true, 0, false);
         instances(4, 3, true, 0, false);
         instances(3, 5, false, 0, false);
